@@ -299,3 +299,93 @@ def check_c18(pid, tier, build, props):
 
 
 REGISTRY["C18"] = check_c18
+
+
+# --------------------------------------------------------------------------- C13
+C13_TAGS = {30: "find_head", 31: "find_headers_and_entries", 32: "find_exiting_and_exits",
+            33: "is_reachable_dfs", 34: "_doms", 35: "_post_doms", 36: "_doms raises",
+            37: "_post_doms raises", 38: "compute_scc"}
+
+
+def c13_brute(item):
+    """Path-based ground truth by brute force (used only to describe a disagreement)."""
+    n = len(item)
+    keys = [str(i) for i in range(n)]
+    succ = {k: [t for t in jt if t not in be] for k, (jt, be) in zip(keys, item)}
+
+    def reach(a):  # >= 1 edge
+        seen = set()
+        st = list(succ.get(a, []))
+        while st:
+            v = st.pop()
+            if v in seen:
+                continue
+            seen.add(v)
+            st.extend(succ.get(v, []))
+        return seen
+
+    return {"reachable_ge1": {k: sorted(reach(k)) for k in keys}}
+
+
+def check_c13(pid, tier, build, props):
+    from . import c13
+
+    t = common.Timer()
+    problems = base_problems(build, props, pid)
+    items, out, errors = c13.run(tier, common.seed())
+    if errors:
+        problems.append("driver errors: %r" % errors[:2])
+    violations = []
+    nq = 0
+    per_tag = {}
+    nontrivial = set()
+    for item, meta, res in out:
+        if res is None:
+            problems.append("harness error: %r" % (meta,))
+            continue
+        nq += len(res)
+        if any(jt for jt, _ in item):
+            nontrivial.add(item)
+        if any(x != 1 for x in res) and len(violations) < 10:
+            common.import_repo()
+            text, _ = c13.export_item(item)
+            rows = [r for r in text.splitlines()[2:-1]]
+            qrows = [r for r in rows if not r.startswith("20 ")]
+            bad = [(C13_TAGS.get(int(q.split()[0]), "?"), q) for q, x in zip(qrows, res) if x != 1]
+            violations.append({"graph": [list(map(list, nb)) for nb in item],
+                               "witness": {"reason": "implementation's answer differs from the proved reference",
+                                           "queries": bad[:4], "ground_truth": c13_brute(item)}})
+    nth = len(props["theorems"])
+    coverage = {
+        "obligations": nth + 1,
+        "discharged": (nth if props["ok"] else 0) + (1 if not violations and not errors and nq else 0),
+        "checker_cmd": "coqc Props/C13.v; build/extract/vchk (RunC13.run_c13) on exported query answers",
+        "trusted_base": TRUSTED + ["extraction (ExtrOcamlBasic only) and ocaml/driver.ml",
+                                   "harness/vh/c13.py (export of graphs and of the implementation's answers)"],
+        "theorems": props["theorems"],
+        "evaluations": nq,
+        "distinct_nontrivial": len(nontrivial),
+        "rule": "ALL directed graphs with <=3 nodes and out-degree <=2 (and <=2 nodes with out-degree <=3) over "
+                "node names plus one external name, self loops and duplicate targets included, all subsets for "
+                "the subset queries, all (begin,end) pairs; plus random graphs up to 30 nodes with declared back "
+                "edges and two external names. An evaluation is one query answer compared with the model; "
+                "non-trivial graphs have at least one edge; distinct by graph",
+        "graphs": len(items),
+        "exhaustive": True,
+        "samples": [{"graph": [list(map(list, nb)) for nb in items[len(items) // 3]]},
+                    {"graph": [list(map(list, nb)) for nb in items[-1]]}],
+        "traces_validated_against_impl": nq,
+        "explanation": "Proved (U, arbitrary graphs): find_head sound and complete; headers/entries and "
+                       "exiting/exits equal their set definitions and are sorted (models are line-by-line); the "
+                       "reference reachability, dominance (both directions) and SCC definitions equal their "
+                       "path-based specifications (closure_spec). Tie: implementation answers = model/reference "
+                       "answers on the enumerated space. Not proved: that the vendored iterative Tarjan, the "
+                       "dominator work-list and is_reachable_dfs equal the references on ALL graphs (compared "
+                       "exhaustively up to the stated bound and on random graphs); _imm_doms is exercised only "
+                       "through the pipeline.",
+    }
+    return {"coverage": coverage, "violations": violations, "problems": problems, "level": "proof",
+            "wall_s": t.s(), "broken_name": "Props/C13.v / correspondence implementation = reference (RunC13)"}
+
+
+REGISTRY["C13"] = check_c13
